@@ -150,6 +150,7 @@ func init() {
 		},
 		NotDecided: []string{
 			"for the io.Reader / io.ReadSeeker / io.ReaderAt back ends the behavioural contract of IBinaryReader.Bytes is proved relative to ghost models of the documented io contracts (what Read/ReadAt/Seek deliver) and to the assumption that the length the client stated at construction is the length of the data (the view predicates rrView/rsView/raView, preserved by Bytes but established by no verified constructor)",
+			"Read/ReadAt against io.Reader/io.ReaderAt: proved are that a nil error means a full read, that the bytes delivered are the content at the position, and that the error latched by the typed readers is neither consulted nor changed; not decided: when exactly the back end reports io.EOF (for stream back ends that is the underlying reader's choice)",
 			"WriteUint16/32/64 and WriteInt16/32/64 byte layout (delegated to encoding/binary's AppendByteOrder, an external interface); the 8- and 24-bit writers (signed and unsigned) and all readers, including two's-complement sign extension of ReadInt8/16/24/32/64, are proved",
 			"the operating system (os.File; syscall.Mmap is assumed to map the length it is asked for) and the file constructors; for the mmap constructor the size half of its view is proved: the mapped slice is exactly as long as the size Len() reports, so reads are clamped at the end of the file",
 		},
@@ -195,8 +196,8 @@ func init() {
 		ID: "C06", Title: "JS tokens follow the ECMAScript lexical grammar",
 		Sel: []Sel{{Pattern: "js.Lexer.*", Levels: "SF"}, {Pattern: "js.NewLexer", Levels: "S"}},
 		NotDecided: []string{
-			"identifier tokens: Unicode ID_Start/ID_Continue classes and \\u escapes (only memory safety and progress are proved for consumeIdentifierToken)",
-			"numeric literals: proved are the extents of hexadecimal, binary, octal and decimal literals including numeric separators (a '_' only between digits of the radix), the BigInt suffix and the exponent; not decided: the legacy-octal and 'identifier directly after a number' error paths, and IntegerToken literals that start with 0",
+			"identifier tokens: Unicode ID_Start/ID_Continue classes and \\u escapes (for consumeIdentifierToken only memory safety, progress and the number of Unicode classes consulted are proved; relative to its verdict, taken as a ghost function of the position, Next is proved to return a PrivateIdentifierToken for '#' exactly when the scanner accepts what follows)",
+			"numeric literals: proved are the extents of hexadecimal, binary, octal and decimal literals including numeric separators (a '_' only between digits of the radix), the BigInt suffix and the exponent; not decided: the legacy-octal and 'identifier directly after a number' error paths, and the extent of IntegerToken literals that start with 0 beyond longest match (proved: an integer literal without BigInt suffix never stops in front of '.', 'e' or 'E')",
 			"template nesting via level/templateLevels (which '}' resumes a template); for string and template tokens the extent is proved (first unescaped delimiter / '${' / raw line break, with line continuations) but not the validity of the escape sequences inside",
 			"RegExp(): proved is that the literal ends at the first '/' that is neither escaped nor inside a character class and that RegExp() rewinds over exactly '/' or '/='; the flags and the well-formedness of the pattern are not decided",
 			"the converse direction for keywords (an identifier whose text is a keyword spelling never gets IdentifierToken) follows from the exact Keywords table used in the encoding but is not stated as a clause",
